@@ -31,6 +31,15 @@ CLAIMED = {
         technique="TLA+ model checking (TLC, safety + liveness) + spec->code replay of simulated behaviours + TLC trace validation of real runs",
         design_ref="4/C18",
     ),
+    "C26": dict(
+        level="fault_enumeration",
+        text="A crash is injected after every autosave (forced after each progress()) of small real TDVP / DMRG / noisy runs, with the optimiser's permutation on and off; "
+             "MPSBackend.resume is compared with the uninterrupted run (values, times, atom order, file removed) and every crashed-and-resumed hook trace is validated by MPSRunTrace.tla. "
+             "MPSRun.tla (progress machine + save / crash / resume + both return paths) is model-checked with the mechanism switch observed from the real resume path.",
+        note="Crash = exception right after a completed save; noiseless tolerance 1e-7; noisy runs compared in distribution only (global RNG state is not in the snapshot).",
+        technique="real fault injection at every save point + TLC trace validation (MPSRunTrace.tla) + TLA+ model checking of MPSRun.tla",
+        design_ref="4/C26",
+    ),
 }
 PENDING_REASON = "check not built yet in this round (planned in DESIGN.md section 4); not claimed until it runs"
 NOT_APPLICABLE = {}
